@@ -146,3 +146,13 @@ Theorem C19_validated_wf_request_served : forall regs d o rq,
   serve_request (build_api regs) d o rq = res_fail 2.
 Proof. exact validated_wf_request_served. Qed.
 Print Assumptions C19_validated_wf_request_served.
+
+(* a declared HEAD operation of a validated API, whatever the spelling its handler was registered under: a well-formed
+   request runs the handler and is answered with status and headers only; no producer is needed *)
+Theorem C19_validated_head_served : forall regs d o rq,
+  validate (build_api regs) d = None -> In o (g_ops d) -> simple_desc d = true ->
+  wf_base (g_base d) = true -> wf_template (op_path o) = true ->
+  wf_request (build_api regs) d o rq = true -> is_head o = true ->
+  exists ct, serve_request (build_api regs) d o rq = mkres 0 ct [].
+Proof. exact validated_head_served. Qed.
+Print Assumptions C19_validated_head_served.
